@@ -190,10 +190,16 @@ def tlc_must_pass(r, what):
 # ----------------------------------------------------------------------------- findings / evidence
 
 def load_known():
+    """known_findings.json plus known_findings.d/*.json (same format), all committed, read-only at run time"""
+    out = []
     p = os.path.join(VERIF, "known_findings.json")
-    if not os.path.exists(p):
-        return []
-    return json.load(open(p)).get("findings", [])
+    files = [p] if os.path.exists(p) else []
+    d = os.path.join(VERIF, "known_findings.d")
+    if os.path.isdir(d):
+        files += [os.path.join(d, f) for f in sorted(os.listdir(d)) if f.endswith(".json")]
+    for f in files:
+        out += json.load(open(f)).get("findings", [])
+    return out
 
 
 class Ctx:
